@@ -403,6 +403,110 @@ fn config_around_footer(prop: &str, proto: Proto, acc: &mut Acc) {
     adapter::reset_verdicts();
 }
 
+/// N expectations / N validators on one parser, N on both sides of powers of two: every one of them counts
+fn many_registrations(prop: &str, proto: Proto, quick: bool, acc: &mut Acc) {
+    let pool = domains::key_pool(proto);
+    let key = &pool[0];
+    let seed = if proto.is_local() { domains::seeds(proto)[2].clone() } else { vec![] };
+    let counts: Vec<usize> = if quick { vec![1, 2, 127, 128, 129, 255, 256, 257, 1_025] } else { (1..=300).chain([511, 512, 513, 1_023, 1_024, 1_025, 4_097, 65_537]).collect() };
+    for n in counts {
+        let member = |i: usize, v: Value| format!("{}:{}", serde_json::to_string(&format!("k{}", i)).unwrap(), v);
+        let payload = |bad: Option<(usize, Option<Value>)>| -> String {
+            let parts: Vec<String> = (0..n)
+                .filter_map(|i| match &bad {
+                    Some((j, None)) if *j == i => None,
+                    Some((j, Some(v))) if *j == i => Some(member(i, v.clone())),
+                    _ => Some(member(i, json!(i))),
+                })
+                .collect();
+            format!("{{{}}}", parts.join(","))
+        };
+        let spots: Vec<usize> = { let mut v = vec![0, n / 2, n - 1]; v.dedup(); v };
+        let mut tokens: Vec<String> = Vec::new();
+        let mut want_ok: Vec<bool> = Vec::new();
+        let mut push = |pl: String, ok: bool, tokens: &mut Vec<String>, want_ok: &mut Vec<bool>| {
+            if let Some(t) = adapter::core_issue(proto, &key.sk, &seed, &pl, None, None).ok() {
+                tokens.push(t.clone());
+                want_ok.push(ok);
+            }
+        };
+        push(payload(None), true, &mut tokens, &mut want_ok);
+        for j in &spots {
+            push(payload(Some((*j, Some(json!("other"))))), false, &mut tokens, &mut want_ok);
+            push(payload(Some((*j, None))), false, &mut tokens, &mut want_ok);
+        }
+        let parses: Vec<POp> = (0..tokens.len()).map(|ti| POp::Parse(ti, 0)).collect();
+        for layer in [Layer::Generic, Layer::Prelude] {
+            if prop == "C15" {
+                let mut ops: Vec<POp> = (0..n).map(|i| POp::Check(ClaimSpec { key: format!("k{}", i), value: json!(i), form: Form::TupleString })).collect();
+                ops.extend(parses.iter().cloned());
+                let ev = adapter::parse_history(proto, layer, false, &[key.pk.clone()], &tokens, &ops);
+                let outs: Vec<bool> = ev.iter().filter_map(|e| if let PEvent::Parsed(o, _) = e { Some(o.is_ok()) } else { None }).collect();
+                acc.executions += tokens.len() as u64;
+                if outs == want_ok {
+                    acc.controls_ok += 1;
+                    acc.bump("many-expectations:conforms");
+                } else {
+                    acc.violate(
+                        format!("C15|{}|{:?}|many-expectations", proto.name(), layer),
+                        format!("{} check_claim expectations k0..k{}; tokens [all satisfied, then k{:?} different / missing in turn]: accepted = {:?}, expected {:?}", n, n - 1, spots, outs, want_ok),
+                        json!({"config_around_footer": {"proto": proto}, "many": n}),
+                    );
+                }
+            } else {
+                // validators: N keys on an accepting validator (each must run exactly once with its own value on the
+                // satisfied token), then key j moved to a rejecting validator
+                adapter::reset_verdicts();
+                adapter::set_verdict(0, adapter::Verdict::Accept);
+                adapter::set_verdict(1, adapter::Verdict::Reject);
+                for route in ["validate_claim", "extend_validation_claims"] {
+                    if route == "extend_validation_claims" && layer != Layer::Generic {
+                        continue;
+                    }
+                    for rejecting in std::iter::once(None).chain(spots.iter().map(|j| Some(*j))) {
+                        let slot_of = |i: usize| if rejecting == Some(i) { 1 } else { 0 };
+                        let mut ops: Vec<POp> = if route == "validate_claim" { (0..n).map(|i| POp::Validate(format!("k{}", i), slot_of(i))).collect() } else { vec![POp::ExtendValidate((0..n).map(|i| (format!("k{}", i), slot_of(i))).collect())] };
+                        ops.push(POp::Parse(0, 0));
+                        let _ = adapter::take_calls();
+                        let ev = adapter::parse_history(proto, layer, false, &[key.pk.clone()], &tokens, &ops);
+                        acc.executions += 1;
+                        let Some(PEvent::Parsed(o, calls)) = ev.last() else { continue };
+                        let problem = if rejecting.is_some() {
+                            if o.is_ok() { Some("a registered validator rejects, yet the parse succeeded".to_string()) } else { None }
+                        } else if !o.is_ok() {
+                            Some(format!("all validators accept, yet the parse failed: {}", o.short()))
+                        } else {
+                            let mut seen = vec![0usize; n];
+                            let mut wrong_value = None;
+                            for c in calls {
+                                if let Some(i) = c.key.strip_prefix('k').and_then(|x| x.parse::<usize>().ok()) {
+                                    if i < n {
+                                        seen[i] += 1;
+                                        if c.value != json!(i) {
+                                            wrong_value = Some(format!("validator for k{} was handed {}", i, c.value));
+                                        }
+                                    }
+                                }
+                            }
+                            let not_once: Vec<usize> = (0..n).filter(|i| seen[*i] != 1).take(5).collect();
+                            if let Some(w) = wrong_value { Some(w) } else if !not_once.is_empty() { Some(format!("validators that did not run exactly once: k{:?} (ran {:?} times)", not_once, not_once.iter().map(|i| seen[*i]).collect::<Vec<_>>())) } else { None }
+                        };
+                        match problem {
+                            None => acc.bump("many-validators:conforms"),
+                            Some(w) => acc.violate(
+                                format!("C16|{}|{:?}|many-validators|{}", proto.name(), layer, route),
+                                format!("{} validators registered through {} ({}): {}", n, route, rejecting.map_or("all accepting".to_string(), |j| format!("the one for k{} rejecting", j)), w),
+                                json!({"config_around_footer": {"proto": proto}, "many": n}),
+                            ),
+                        }
+                    }
+                }
+                adapter::reset_verdicts();
+            }
+        }
+    }
+}
+
 // ------------------------------------------------------------------------------------------------ run
 
 pub fn run(prop: &'static str, tier: &str) -> i32 {
@@ -474,6 +578,9 @@ pub fn run(prop: &'static str, tier: &str) -> i32 {
             let mut acc = Acc::default();
             adapter::freeze_default_clock();
             config_around_footer(prop, *p, &mut acc);
+            if matches!(p, Proto::V4L | Proto::V2P) {
+                many_registrations(prop, *p, quick, &mut acc);
+            }
             acc
         });
         all.merge(Acc::merge_all(accs));
